@@ -260,15 +260,18 @@ func run(prop *Prop, id, tier string, seed int64, replay, work string, start tim
 		os.WriteFile(filepath.Join(verifRoot, "work", "last-violation-keys-"+id+".txt"), []byte(sb.String()), 0o644)
 	}
 	for i, v := range fresh {
-		if i >= 25 {
-			fmt.Printf("... %d further violations not listed\n", len(fresh)-i)
+		if i >= 400 {
 			break
 		}
 		p := filepath.Join(outRoot, "replay", id, sanitize(v.Key)+".json")
 		b, _ := json.MarshalIndent(v, "", " ")
 		os.WriteFile(p, b, 0o644)
-		fmt.Printf("VIOLATION property=%s replay=%s\n  key=%s\n  %s\n", id, p, v.Key, firstLines(v.Detail, 12))
 		exit = 1
+		if i < 25 {
+			fmt.Printf("VIOLATION property=%s replay=%s\n  key=%s\n  %s\n", id, p, v.Key, firstLines(v.Detail, 12))
+		} else if i == 25 {
+			fmt.Printf("... %d further violations: replay files under %s, keys in %s\n", len(fresh)-i, filepath.Join(outRoot, "replay", id), filepath.Join(verifRoot, "work", "last-violation-keys-"+id+".txt"))
+		}
 	}
 	if harnessErr != "" {
 		exit = 2
